@@ -9,6 +9,7 @@ package harness
 // Only the ABCI response code is observed.
 
 import (
+	"time"
 	"crypto/sha256"
 	"encoding/json"
 	"fmt"
@@ -64,6 +65,9 @@ type c19Tx struct {
 type c19Case struct {
 	Txs    []c19Tx `json:"txs"`
 	Signed bool    `json:"signed,omitempty"` // the batch is signed by a funded account (c19_signed.go)
+	// Mode "deliver": the codes of the case are those of FinalizeBlock (block execution: the transaction was put into a
+	// block by a proposer without having passed this node's mempool check); default: CheckTx
+	Mode string `json:"mode,omitempty"`
 }
 
 // ---------- fixtures ----------
@@ -89,6 +93,8 @@ type c19Fix struct {
 	evmDenom string
 	disabled map[string]bool // the property's disabled message types, by type URL
 	disURLs  []string
+	lastBz   []byte // encoding of the transaction most recently sent through CheckTx
+	proposer []byte
 }
 
 // c19NewFix builds the application (NewApp), then runs and commits block 1 so that
@@ -101,6 +107,7 @@ func c19NewFix() *c19Fix {
 	f.spriv = &ethsecp256k1.PrivKey{Key: hs[:]}
 	f.saddr = sdk.AccAddress(f.spriv.PubKey().Address())
 	f.c19Fund(ctx)
+	f.proposer = ctx.BlockHeader().ProposerAddress
 	if _, err := a.FinalizeBlock(&abci.RequestFinalizeBlock{Height: 1, Time: GenesisTime, ProposerAddress: ctx.BlockHeader().ProposerAddress}); err != nil {
 		panic(err)
 	}
@@ -139,6 +146,10 @@ func c19NewFix() *c19Fix {
 	for _, u := range f.disURLs {
 		f.disabled[u] = true
 	}
+	// As on a live node, a block is in progress while transactions are checked: FinalizeBlock hands the check state the
+	// block gas meter (unlimited under app.Setup's consensus parameters).  Without it the check state created by Commit
+	// has no block gas meter and the Ethereum chain refuses every transaction with "exceeds block gas limit (0)".
+	f.deliverBatch(nil)
 	return f
 }
 
@@ -272,11 +283,45 @@ func (f *c19Fix) run(t c19Tx) (urls []string, code uint32, ok bool) {
 	if err != nil {
 		return nil, 0, false
 	}
+	f.lastBz = bz
 	res, err := f.a.CheckTx(&abci.RequestCheckTx{Tx: bz, Type: abci.CheckTxType_New})
 	if err != nil {
 		return nil, 0, false
 	}
 	return urls, res.Code, true
+}
+
+// deliverBatch executes the encoded transactions in one block (FinalizeBlock at the next height, never committed: the
+// finalize state accumulates over the batches exactly as the check state does, so the sequence numbers of the signed
+// stream line up) and returns the response code of each.
+func (f *c19Fix) deliverBatch(bzs [][]byte) []uint32 {
+	res, err := f.a.FinalizeBlock(&abci.RequestFinalizeBlock{Height: f.a.LastBlockHeight() + 1, Time: GenesisTime.Add(time.Second), ProposerAddress: f.proposer, Txs: bzs})
+	if err != nil {
+		panic(err)
+	}
+	out := make([]uint32, len(bzs))
+	for i, r := range res.TxResults {
+		out[i] = r.Code
+		if r.Code != 0 {
+			// In a block an admitted transaction goes on to execute its messages, and a failure there (no such validator,
+			// no authz grant, ...) is reported in the same code field.  Admission is what is compared: the events of a
+			// passed ante handler (fee deduction, sequence increment, signature / ethereum_tx) are kept by baseapp even when
+			// message execution fails, and a transaction refused by the ante handler has none.
+			for _, ev := range r.Events {
+				if ev.Type == "ethereum_tx" {
+					out[i] = 0
+				}
+				if ev.Type == sdk.EventTypeTx {
+					for _, at := range ev.Attributes {
+						if at.Key == sdk.AttributeKeyAccountSequence || at.Key == sdk.AttributeKeySignature {
+							out[i] = 0
+						}
+					}
+				}
+			}
+		}
+	}
+	return out
 }
 
 // ---------- shapes ----------
@@ -606,13 +651,32 @@ func runC19(e *Env) {
 			batches = append(batches, batch{sg[lo:hi], true})
 		}
 	}
-	for _, bt := range batches {
+	replayMode := ""
+	if e.Replay != nil {
+		var k0 c19Case
+		mustUnmarshal(e.Replay, &k0)
+		replayMode = k0.Mode
+	}
+	for bi, bt := range batches {
 		kase := c19Case{Txs: bt.txs, Signed: bt.signed}
 		var terms []string
+		// block-execution mode for this batch too?  (every batch in the thorough tier and of the signed stream,
+		// every second one otherwise)
+		wantDeliver := e.Replay == nil && (bt.signed || e.Tier != "quick" || bi%2 == 0)
+		if replayMode == "deliver" {
+			wantDeliver = true
+		}
+		type built struct {
+			urls []string
+			ms   []string
+			bz   []byte
+		}
+		var blt []built
 		for _, t := range kase.Txs {
 			var urls []string
 			var code uint32
 			var ok bool
+			f.lastBz = nil
 			if bt.signed {
 				urls, code, ok = f.runSigned(t)
 			} else {
@@ -622,12 +686,14 @@ func runC19(e *Env) {
 				// the transaction could not even be built, signed or encoded: nothing reached the application
 				e.Stats.Count("not-encodable")
 				urls, code = []string{"<not encodable>"}, 999999
+				f.lastBz = nil
 			}
 			e.Stats.Evaluations++
 			var ms []string
 			for _, n := range t.Msgs {
 				ms = append(ms, f.term(n))
 			}
+			blt = append(blt, built{urls, ms, f.lastBz})
 			terms = append(terms, Tup(c19QList(urls), L(ms), Zi(int64(code))))
 			e.Stats.Count(fmt.Sprintf("code:%d", code))
 			e.Stats.Count("options:" + strings.Join(t.Opts, "+"))
@@ -644,12 +710,39 @@ func runC19(e *Env) {
 		}
 		rej := oracleRejects
 		if bt.signed {
-			// signed, funded, right sequence: no unmodelled check objects, except the block gas limit
-			// of 0 that EthGasConsumeDecorator sees under app.Setup's consensus parameters
-			rej = []string{"github.com/evmos/ethermint/app/ante.NewEthGasConsumeDecorator(options.EvmKeeper, options.MaxTxGasWanted)"}
+			// signed, funded, right sequence, a block in progress: no unmodelled check object rejects
+			rej = []string{}
 		}
-		term := App("mkAnteCase", tablesTerm, c19QList(extReg), B(vestReg), c19QList(rej), L(terms))
-		e.AddCase("check_case", term, kase)
+		if replayMode != "deliver" {
+			term := App("mkAnteCase", tablesTerm, c19QList(extReg), B(vestReg), c19QList(rej), L(terms))
+			e.AddCase("check_case", term, kase)
+		}
+		if wantDeliver {
+			// the same encoded transactions, executed in a block: admission must not depend on the execution mode
+			var bzs [][]byte
+			for _, b := range blt {
+				if b.bz != nil {
+					bzs = append(bzs, b.bz)
+				}
+			}
+			codes := f.deliverBatch(bzs)
+			var dterms []string
+			k := 0
+			for _, b := range blt {
+				code := uint32(999999)
+				if b.bz != nil {
+					code = codes[k]
+					k++
+				}
+				e.Stats.Evaluations++
+				e.Stats.Count(fmt.Sprintf("deliver-code:%d", code))
+				dterms = append(dterms, Tup(c19QList(b.urls), L(b.ms), Zi(int64(code))))
+			}
+			dk := kase
+			dk.Mode = "deliver"
+			e.AddCase("check_case", App("mkAnteCase", tablesTerm, c19QList(extReg), B(vestReg), c19QList(rej), L(dterms)), dk)
+			e.Stats.Count("batches:deliver-mode")
+		}
 		if len(kase.Txs) > 2 && len(e.Stats.Samples) < 3 {
 			mid := len(kase.Txs) / 2
 			e.Stats.Sample(c19Case{Txs: kase.Txs[mid : mid+2], Signed: bt.signed})
